@@ -68,7 +68,14 @@ func Minimise(sc *Scenario, fails func(*Scenario) bool) *Scenario {
 			c.Cfg.User, c.Cfg.Pass, c.Cfg.WillTopic, c.Cfg.WillPay, c.Cfg.WillQoS, c.Cfg.WillRetain = "", "", "", "", 0, false
 			return ch
 		},
-		func(c *Scenario) bool { ch := len(c.Cfg.InitIDs) > 0; c.Cfg.InitIDs = nil; return ch },
+		func(c *Scenario) bool {
+			if c.Cfg.Client != "base" {
+				return false // distinct id blocks per connection are part of the fault space (see DESIGN: cross-connection id collision)
+			}
+			ch := len(c.Cfg.InitIDs) > 0
+			c.Cfg.InitIDs = nil
+			return ch
+		},
 		func(c *Scenario) bool { ch := len(c.Cfg.Yields) > 0; c.Cfg.Yields = nil; return ch },
 		func(c *Scenario) bool { ch := c.Cfg.CleanSession; c.Cfg.CleanSession = false; return ch },
 		func(c *Scenario) bool { ch := c.Cfg.AlwaysResub; c.Cfg.AlwaysResub = false; return ch },
@@ -166,7 +173,7 @@ func removeOp(sc *Scenario, i int) *Scenario {
 	keep := make([]bool, len(c.Ops))
 	for j, o := range c.Ops {
 		keep[j] = j != i
-		if (o.Kind == "cancel" || o.Kind == "retryhandle") && o.Target == i {
+		if refersTo(o) && o.Target == i {
 			keep[j] = false // loses its subject
 		}
 	}
@@ -174,7 +181,7 @@ func removeOp(sc *Scenario, i int) *Scenario {
 	for changed := true; changed; {
 		changed = false
 		for j, o := range c.Ops {
-			if keep[j] && (o.Kind == "cancel" || o.Kind == "retryhandle") && o.Target >= 0 && o.Target < len(keep) && !keep[o.Target] {
+			if keep[j] && refersTo(o) && o.Target >= 0 && o.Target < len(keep) && !keep[o.Target] {
 				keep[j] = false
 				changed = true
 			}
@@ -193,7 +200,7 @@ func removeOp(sc *Scenario, i int) *Scenario {
 		if !keep[j] {
 			continue
 		}
-		if o.Kind == "cancel" || o.Kind == "retryhandle" {
+		if refersTo(o) {
 			o.Target = remap[o.Target]
 		}
 		ops = append(ops, o)
@@ -226,4 +233,9 @@ func ValidScenario(sc *Scenario) bool {
 		}
 	}
 	return true
+}
+
+// refersTo: ops whose Target names another op.
+func refersTo(o Op) bool {
+	return o.Kind == "cancel" || o.Kind == "retryhandle" || o.Kind == "afterconnect"
 }
